@@ -14,6 +14,7 @@ import (
 	"github.com/crate-crypto/go-ipa/ipa"
 
 	"verif/mon"
+	"verif/ref"
 )
 
 func init() {
@@ -87,6 +88,9 @@ func c12cold(c *mon.Ctx) {
 		env = GetEnv()
 		kinds = []int{opVerify, opProve, opIPA, opCommit, opVerifyMalformed, opSharedInputs, opProofIO, opMSM, opCodec, opVerify}
 	}
+	if c.Config["coldconf"] == "0" || c.Config["coldconf"] == "" {
+		c12coldDecode(c) // the very first library calls of the process: point decodings started at the same instant
+	}
 	o := newOpCtx(env, c.Seed*1000+int64(c.Shard), c.Rand(fmt.Sprintf("c12cold/%d", c.Shard)))
 	if c.Config["coldconf"] == "2" {
 		c12coldVerify(c, env, o) // verifier-first variant: proofs are prepared alone, the first verifications are simultaneous
@@ -140,6 +144,55 @@ func c12cold(c *mon.Ctx) {
 	})
 	c.Count("hook.multiproof.group.send", 1)
 	c.Count("hook.msm.chunk.send", 1)
+}
+
+// c12coldDecode: encodings are prepared with the reference only (no library call has been made yet in this process);
+// the first library calls are then G point decodings released by a spin barrier. Each must succeed and re-encode to its
+// input (tables built lazily on first use are first used by all goroutines at once).
+func c12coldDecode(c *mon.Ctx) {
+	const G = 24
+	rng := c.Rand("colddecode")
+	encs := make([][32]byte, G)
+	pt := ref.Mul(ref.Generator(), randBig(rng, ref.R))
+	step := ref.Mul(ref.Generator(), randBig(rng, ref.R))
+	for g := range encs {
+		encs[g] = ref.Serialize(pt)
+		pt = ref.Add(pt, step)
+	}
+	c.Case("coldstart/first-decodings-at-once", func() {
+		var wg sync.WaitGroup
+		var ready int32
+		errs := make([]error, G)
+		outs := make([][32]byte, G)
+		pan := make([]interface{}, G)
+		for g := 0; g < G; g++ {
+			g := g
+			wg.Add(1)
+			go func() {
+				defer wg.Done()
+				atomic.AddInt32(&ready, 1)
+				for atomic.LoadInt32(&ready) < G {
+				}
+				pan[g], _ = mon.Try(func() {
+					var e banderwagon.Element
+					if errs[g] = e.SetBytes(encs[g][:]); errs[g] == nil {
+						outs[g] = e.Bytes()
+					}
+				})
+			}()
+		}
+		wg.Wait()
+		for g := range errs {
+			switch {
+			case pan[g] != nil:
+				c.Fail("panic-at-cold-start/SetBytes", fmt.Sprintf("SetBytes panicked as one of the first %d concurrent library calls of the process: %v", G, pan[g]), nil)
+			case errs[g] != nil || outs[g] != encs[g]:
+				c.Fail("cold-start-output-differs/SetBytes", fmt.Sprintf("one of the first %d concurrent SetBytes calls of the process rejected or mis-decoded a valid encoding (err=%v)", G, errs[g]), nil)
+			}
+			c.Count("cold_start_operations", 1)
+			c.Eval(fmt.Sprintf("coldstart|first-SetBytes-at-once|P=%d|W=%d", runtime.GOMAXPROCS(0), runtime.NumCPU()), true)
+		}
+	})
 }
 
 // c12coldVerify: honest proofs are prepared by this goroutine alone (prover and commitment code only); the very first
